@@ -36,6 +36,7 @@ def _graph_case(rng):
     names = names[:rng.randrange(2, 7)]
     ops = []
     present = []
+    seqs = []
     for _ in range(rng.randrange(2, 10)):
         r = rng.random()
         if r < 0.55 or not present:
@@ -45,10 +46,12 @@ def _graph_case(rng):
             ops.append({'k': 'add', 'p': p, 'deps': deps})
             present.append(p)
         elif r < 0.7:
-            fresh = [n for n in names if n not in present]
+            # (registering a deriver path again keeps its place: F54)
+            fresh = [n for n in names if n not in present or (n in seqs and rng.random() < 0.3)]
             if not fresh:
                 continue
-            p = rng.choice(fresh)      # the engine registers a deriver path once
+            p = rng.choice(fresh)
+            seqs.append(p)
             ops.append({'k': 'seq', 'p': p})
             present.append(p)
         else:
@@ -76,6 +79,12 @@ def corpus():
         {'kind': 'graph', 'ops': [{'k': 'add', 'p': ['c'], 'deps': [['a'], ['b']]}, {'k': 'add', 'p': ['b'], 'deps': [['a']]},
                                   {'k': 'add', 'p': ['a'], 'deps': []}, {'k': 'seq', 'p': ['d']}]},
         {'kind': 'graph', 'ops': [{'k': 'add', 'p': ['a'], 'deps': [['b']]}, {'k': 'add', 'p': ['b'], 'deps': [['a']]}]},
+        # F55: a step registered again depends on what is listed now (`a` after `c` only; then the reverse of an
+        # old edge is no cycle); F54: a deriver registered again keeps its place
+        {'kind': 'graph', 'ops': [{'k': 'add', 'p': ['b'], 'deps': []}, {'k': 'add', 'p': ['c'], 'deps': []},
+                                  {'k': 'add', 'p': ['a'], 'deps': [['b']]}, {'k': 'add', 'p': ['a'], 'deps': [['c']]},
+                                  {'k': 'add', 'p': ['b'], 'deps': [['a']]}]},
+        {'kind': 'graph', 'ops': [{'k': 'seq', 'p': ['d']}, {'k': 'seq', 'p': ['e']}, {'k': 'seq', 'p': ['d']}]},
         # F10: removing a step drops the steps that depend on it
         {'kind': 'graph', 'ops': [{'k': 'add', 'p': ['a'], 'deps': []}, {'k': 'add', 'p': ['b'], 'deps': [['a']]},
                                   {'k': 'remove', 'p': ['a']}]},
@@ -192,19 +201,46 @@ def oracle(case, impl):
         if got is None:
             return [f'probe-crashed: {impl}']
         seq, nodes, edges = [], [], []
+
+        def acyclic(es):
+            succ = {}
+            for a, b in es:
+                succ.setdefault(a, []).append(b)
+            state = {}
+
+            def visit(n):
+                if state.get(n) == 1:
+                    return False
+                if state.get(n) == 2:
+                    return True
+                state[n] = 1
+                ok = all(visit(m) for m in succ.get(n, []))
+                state[n] = 2
+                return ok
+            return all(visit(n) for n in list(succ))
         for op, res in zip(case['ops'], got):
             p = tuple(op['p'])
             if res == 'error':
-                continue
+                if op['k'] == 'add':
+                    # a registration may be refused for a cycle or for a path that is a deriver already, nothing else
+                    new_edges = [(a, b) for a, b in edges if b != p] + [(tuple(d), p) for d in op['deps']]
+                    touched = {p} | {tuple(d) for d in op['deps']}
+                    if acyclic(new_edges) and not (touched & set(seq)):
+                        fails.append(f'rejected: {op} was refused although the dependencies registered now '
+                                     f'({sorted(new_edges)}) form a DAG')
+                break        # a failed add leaves the real graph in an undefined state
             if op['k'] == 'add':
                 if p not in nodes:
                     nodes.append(p)
+                # a step registered again depends on what is listed now (F55)
+                edges = [(a, b) for a, b in edges if b != p]
                 for d in op['deps']:
                     if tuple(d) not in nodes:
                         nodes.append(tuple(d))
                     edges.append((tuple(d), p))
             elif op['k'] == 'seq':
-                seq.append(p)
+                if p not in seq:           # registered again: it keeps its place (F54)
+                    seq.append(p)
             else:
                 if p in seq:
                     seq.remove(p)
